@@ -5,8 +5,9 @@ C11 - Copies handed out are equal to, and independent of, the original.
 Tie between lean/OdmlModel/Model/Clone.lean and /repo: generated documents x every node as
 clone / export_leaf root x flags x edit sequences applied to the copy or to the original
 (value edits incl. in-place edits of lists returned by `values`, of their inner tuple lists and
-of lists passed in as `values`, renames, attribute and cardinality changes, dtype changes,
-structural edits). After every operation both worlds are snapshotted completely (every
+of lists passed in as `values`, writes to the stored tuple items through the bracket access
+`prop[i][j] = s`, renames, attribute and cardinality changes, dtype changes, structural edits),
+optionally after a history of edits of the original, or alternating between both sides. After every operation both worlds are snapshotted completely (every
 parentless object as a tree with object identities, every list the caller holds) and compared
 with the compiled model; the oracle (independent of the model) checks the laws of the property
 on the implementation's snapshots alone.
@@ -24,13 +25,34 @@ PROP_KEYS = ["dtype", "unit", "uncertainty", "reference", "definition", "depende
              "dependency_value", "value_origin", "val_cardinality"]
 DOC_KEYS = ["author", "version", "date", "repository"]
 NAMES = ["a", "b", "c", "ab", "k"]
-TOKENS = ["a", "b", "c", "x1", "Y", "zz"]
-FAMILY_DTYPE = {"str": "string", "int": "int", "tup": "2-tuple"}
+WIDE_NAMES = ["n%d" % i for i in range(12)]
+# all tokens are in the normal form of an item of an odML tuple (no ';', no brackets, no blanks at
+# the ends): a value edited in place through the bracket access stays a value the library accepts
+TOKENS = ["a", "b", "c", "x1", "Y", "zz", u"\u00fc", "a b", u"\u65e5\u672c"]
+TUP_N = {"tup": 2, "tup1": 1, "tup3": 3, "tup10": 10}
+FAMILY_DTYPE = {"str": "string", "int": "int", "tup": "2-tuple", "tup1": "1-tuple", "tup3": "3-tuple",
+                "tup10": "10-tuple", "float": "float", "bool": "boolean", "date": "date",
+                "datetime": "datetime", "time": "time", "url": "url", "person": "person"}
+DTYPE_FAMILY = dict((v, k) for k, v in FAMILY_DTYPE.items())
+DTYPE_FAMILY["text"] = "str"
+GEN_FAMILIES = ["str", "str", "int", "tup", "tup", "tup", "tup3", "tup3", "tup10", "tup1", "float", "bool",
+                "date", "datetime", "time", "url", "person"]
+LIST_FAMILIES = ["str", "int", "tup", "tup", "tup3", "tup3", "tup10", "float", "date"]
+INTS = [-3, 10, 1000, 12345678901234567890]
+FLOATS = [0.5, -1.25, 3.0, 1e+20, 0.1]
+DATES = [(2011, 12, 1), (999, 1, 2), (1, 1, 1), (2024, 2, 29), (1970, 1, 1)]
+TIMES = [(0, 0, 0), (12, 0, 1), (23, 59, 59)]
 
 PRODUCERS = ("clone", "export", "get_values", "new_list", "new_obj")
 LIST_MUTATORS = ("list_append", "list_set", "list_del", "list_inner_set")
 FREE_OPS = ("insert", "reorder", "set_card", "prop_extend", "prop_remove", "prop_insert", "clean",
-            "create_section", "create_property", "set_parent", "extend", "values_retype", "sec_merge")
+            "create_section", "create_property", "set_parent", "extend", "values_retype", "sec_merge",
+            # round 2: direct (bracket) access to the stored values in every spelling, items held
+            # across a copy, copies made by Section.merge from the other side, links, lists passed
+            # in through the other entry points
+            "inner_edit", "inner_edit", "hold_item", "held_set", "held_set", "merge_across", "merge_across",
+            "set_link", "finalize", "ctor_from_list", "extend_from_list", "set_values_wrapped",
+            "value_alias")
 
 
 def enc_atom(v):
@@ -44,13 +66,7 @@ def enc_values(vals):
 def family_of(dtype):
     if dtype is None:
         return None
-    if dtype.endswith("-tuple"):
-        return "tup" if dtype == "2-tuple" else None
-    if dtype in ("string", "text"):
-        return "str"
-    if dtype == "int":
-        return "int"
-    return None
+    return DTYPE_FAMILY.get(dtype)
 
 
 def kind_of(obj):
@@ -66,22 +82,75 @@ def kind_of(obj):
     return None
 
 
+def ancestors(obj):
+    out, cur, guard = [], obj, 0
+    while cur is not None and guard < 2000:
+        out.append(cur)
+        cur = cur.parent
+        guard += 1
+    return out
+
+
+def related(a, b):
+    """One of the two objects lies on the path from the other to its root."""
+    return any(x is b for x in ancestors(a)) or any(x is a for x in ancestors(b))
+
+
+def linked_sections(root, limit=2000):
+    """The Sections below (and including) root that carry a link."""
+    out, todo = [], [root]
+    while todo and limit > 0:
+        cur = todo.pop()
+        limit -= 1
+        if kind_of(cur) == "sec" and cur.link is not None:
+            out.append(cur)
+        todo.extend(list(cur.sections))
+    return out
+
+
 def attrs_of(obj, kind):
     keys = {"doc": DOC_KEYS, "sec": SEC_KEYS, "prop": PROP_KEYS}[kind]
     return [repr(getattr(obj, k, "<missing>")) for k in keys]
 
 
 # ----------------------------------------------------------------------------- literals
-def py_and_lit(family, r, allow_list_form=True):
-    """A value of the family: (python input for the API, stored python form, model literal)."""
+def py_and_lit(family, r, allow_list_form=True, json_safe=False):
+    """A value of the family: (python input for the API, stored python form, model literal).
+    allow_list_form: the input may be a spelling only the `values` setter takes (a tuple value as a
+    list, a date as text); append / insert / prop[i] = v get the stored form or the tuple text.
+    json_safe: the input is JSON (document specs are part of the case)."""
+    import datetime
     if family == "int":
         v = r.randrange(0, 10)
+        if r.random() < 0.15:
+            v = r.choice(INTS)
         return v, v, {"a": enc_atom(v)}
-    if family == "tup":
-        a, b = r.choice(TOKENS), r.choice(TOKENS)
+    if family in TUP_N:
+        items = [r.choice(TOKENS) for _ in range(TUP_N[family])]
         if allow_list_form and r.random() < 0.5:
-            return [a, b], [a, b], {"t": [a, b]}
-        return "(%s;%s)" % (a, b), [a, b], {"t": [a, b]}
+            return list(items), list(items), {"t": list(items)}
+        return "(%s)" % ";".join(items), list(items), {"t": list(items)}
+    if family == "float":
+        v = r.choice(FLOATS)
+        py = repr(v) if allow_list_form and r.random() < 0.3 else v
+        return py, v, {"a": enc_atom(v)}
+    if family == "bool":
+        v = r.random() < 0.5
+        py = ("true" if v else "False") if allow_list_form and r.random() < 0.3 else v
+        return py, v, {"a": enc_atom(v)}
+    if family in ("date", "datetime", "time"):
+        d, t = r.choice(DATES), r.choice(TIMES)
+        if family == "date":
+            v = datetime.date(*d)
+            text = "%04d-%02d-%02d" % d
+        elif family == "time":
+            v = datetime.time(*t)
+            text = "%02d:%02d:%02d" % t
+        else:
+            v = datetime.datetime(*(d + t))
+            text = "%04d-%02d-%02d %02d:%02d:%02d" % (d + t)
+        py = text if json_safe or (allow_list_form and r.random() < 0.4) else v
+        return py, v, {"a": enc_atom(v)}
     v = r.choice(TOKENS)
     return v, v, {"a": enc_atom(v)}
 
@@ -126,7 +195,9 @@ class World(object):
     def tree(self, obj, depth=0):
         kind = kind_of(obj)
         if depth > 40:
-            return {"too_deep": True}
+            # a well-formed leaf, so that everything that walks snapshots can go on
+            return {"h": self.idx(obj), "k": kind, "n": "<too deep>", "id": "<too deep>", "a": [],
+                    "v": None, "m": None, "s": [], "p": [], "too_deep": True}
         node = {"h": self.idx(obj), "k": kind, "n": "" if kind == "doc" else obj.name, "id": obj.id,
                 "a": attrs_of(obj, kind), "v": None, "m": None, "s": [], "p": []}
         if kind == "prop":
@@ -171,17 +242,24 @@ class World(object):
 
 def build_doc(spec):
     import odml
-    doc = odml.Document(author=spec.get("author"), version=spec.get("version"))
+    doc = odml.Document(author=spec.get("author"), version=spec.get("version"), date=spec.get("date"))
 
     def add_sec(parent, s):
+        # "ulink": the link is given to the constructor, which stores it unresolved
         sec = odml.Section(name=s["name"], type=s.get("type", "t"), parent=parent,
-                           definition=s.get("definition"), oid=s.get("oid"))
+                           definition=s.get("definition"), oid=s.get("oid"),
+                           reference=s.get("reference"), link=s.get("ulink"))
         if s.get("sec_card") is not None:
             sec.sec_cardinality = tuple(s["sec_card"])
+        if s.get("prop_card") is not None:
+            sec.prop_cardinality = tuple(s["prop_card"])
         for p in s.get("props", []):
             prop = odml.Property(name=p["name"], values=p.get("values"), dtype=p.get("dtype"),
                                  unit=p.get("unit"), definition=p.get("definition"), parent=sec,
-                                 oid=p.get("oid"))
+                                 oid=p.get("oid"), uncertainty=p.get("uncertainty"),
+                                 reference=p.get("reference"), dependency=p.get("dependency"),
+                                 dependency_value=p.get("dependency_value"),
+                                 value_origin=p.get("value_origin"))
             if p.get("val_card") is not None:
                 prop.val_cardinality = tuple(p["val_card"])
         for sub in s.get("sections", []):
@@ -215,11 +293,13 @@ class Gen(object):
 
     def prop(self, name):
         r = self.r
-        fam = r.choice(["str", "str", "int", "tup", "tup"])
+        fam = r.choice(GEN_FAMILIES)
         n = r.choice([0, 1, 1, 2, 3])
+        if r.random() < 0.06:
+            n = r.choice([10, 11, 12])          # a tenth value and beyond
         vals = []
         for _ in range(n):
-            py, _st, _lit = py_and_lit(fam, r)
+            py, _st, _lit = py_and_lit(fam, r, json_safe=True)
             vals.append(py)
         p = {"name": name, "dtype": FAMILY_DTYPE[fam], "values": vals}
         if fam == "str" and r.random() < 0.3:
@@ -229,49 +309,83 @@ class Gen(object):
         if r.random() < 0.2:
             p["definition"] = r.choice(TOKENS)
         if r.random() < 0.2:
-            p["val_card"] = r.choice([[None, 5], [1, None], [0, 4]])
+            # incl. bounds the values do not meet (cardinalities only warn) and min == max
+            p["val_card"] = r.choice([[None, 5], [1, None], [0, 4], [None, 1], [3, None], [2, 2]])
+        for key in ("uncertainty", "reference", "dependency", "dependency_value", "value_origin"):
+            if r.random() < 0.08:
+                p[key] = r.choice(TOKENS)
         if r.random() < 0.85:
             p["oid"] = self.oid()
         if r.random() < 0.1:
             p["name"] = None              # unnamed: the library names it by its id
         return p
 
-    def sec(self, name, depth, budget):
+    def sec(self, name, depth, budget, shape=None):
         r = self.r
         s = {"name": name, "type": r.choice(["t", "u", "t/v"]), "props": [], "sections": []}
         if r.random() < 0.3:
             s["definition"] = r.choice(TOKENS)
+        if r.random() < 0.08:
+            s["reference"] = r.choice(TOKENS)
         if r.random() < 0.15:
-            s["sec_card"] = r.choice([[None, 4], [1, None]])
+            s["sec_card"] = r.choice([[None, 4], [1, None], [None, 1], [2, 2]])
+        if r.random() < 0.1:
+            s["prop_card"] = r.choice([[None, 4], [1, None], [None, 1], [2, 2]])
         if r.random() < 0.85:
             s["oid"] = self.oid()
-        for nm in r.sample(NAMES, r.choice([0, 1, 1, 2, 3])):
+        wide = shape == "wide" and depth == 1 and not budget[1]
+        if wide:
+            budget[1] = True                   # one Section with a tenth child and beyond
+            names = WIDE_NAMES[:r.choice([10, 11, 12])]
+        else:
+            names = r.sample(NAMES, r.choice([0, 1, 1, 2, 3]))
+        for nm in names:
             if budget[0] <= 0:
                 break
             budget[0] -= 1
             s["props"].append(self.prop(nm))
         if depth > 1 and r.random() < 0.1:
             s["name"] = None              # unnamed Section below the top level (named by its id)
-        if depth < 3:
-            for nm in r.sample(NAMES, r.choice([0, 0, 1, 1, 2])):
+        if shape == "deep":
+            # a chain (the path export_leaf copies): 7 levels, a Property here and there
+            if depth < 7:
+                s["sections"].append(self.sec(r.choice(NAMES), depth + 1, budget, shape))
+                if r.random() < 0.3 and budget[0] > 0:
+                    budget[0] -= 1
+                    s["sections"].append(self.sec("side", 7, budget, None))
+        elif depth < 3:
+            names = WIDE_NAMES[:r.choice([10, 11])] if wide and r.random() < 0.5 else \
+                r.sample(NAMES, r.choice([0, 0, 1, 1, 2]))
+            for nm in names:
                 if budget[0] <= 0:
                     break
                 budget[0] -= 1
-                s["sections"].append(self.sec(nm, depth + 1, budget))
+                s["sections"].append(self.sec(nm, depth + 1, budget if not wide else [0, True]))
         return s
 
-    def doc(self, linked=False):
+    def doc(self, linked=False, shape=None):
         r = self.r
-        budget = [r.choice([3, 6, 10, 14])]
+        budget = [r.choice([3, 6, 10, 14]), False]
+        if shape == "wide":
+            budget[0] = 30
+        if shape == "deep":
+            budget[0] = 12
         d = {"author": r.choice([None, "me"]), "version": r.choice([None, "1"]), "sections": []}
-        for nm in r.sample(NAMES, r.choice([1, 2, 2, 3])):
+        if r.random() < 0.15:
+            d["date"] = r.choice(["2011-12-01", "0999-01-02"])
+        for nm in r.sample(NAMES, r.choice([1, 2, 2, 3]) if shape is None else r.choice([1, 2])):
             budget[0] -= 1
-            d["sections"].append(self.sec(nm, 1, budget))
+            d["sections"].append(self.sec(nm, 1, budget, shape))
         if linked and len(d["sections"]) >= 2:
             src = d["sections"][0]
             tgt = d["sections"][1]
-            src["link"] = "/" + tgt["name"]
-            d["finalize"] = True
+            if r.random() < 0.3:
+                # the same link left unresolved (constructor argument); Document.finalize or a
+                # load of the written file (template / include stream) resolves it
+                src["ulink"] = "/" + tgt["name"]
+            else:
+                src["link"] = "/" + tgt["name"]
+                d["finalize"] = True
         return d
 
     def sel(self, what):
@@ -281,10 +395,13 @@ class Gen(object):
         r = self.r
         x = r.random()
         seed = r.randrange(1 << 30)
-        if free and x < 0.35:
+        if free and x < 0.45:
             o = r.choice(FREE_OPS)
             return {"o": o, "p": self.sel("cont"), "x": self.sel("child"), "q": self.sel("prop"),
-                    "pos": r.randrange(-3, 4), "seed": seed, "name": r.choice(NAMES)}
+                    "pos": r.randrange(-3, 4), "seed": seed, "name": r.choice(NAMES),
+                    "t": self.sel("tupprop"), "i": r.randrange(0, 3), "j": r.randrange(0, 3),
+                    "s": r.choice(TOKENS), "l": r.randrange(1000), "y": self.sel("sec"),
+                    "wrap": r.random() < 0.8}
         table = [
             (0.10, {"o": "get_values", "p": self.sel("prop")}),
             (0.07, {"o": "set_values_from", "p": self.sel("prop"), "l": r.randrange(1000)}),
@@ -292,15 +409,18 @@ class Gen(object):
             (0.07, {"o": "append_value", "p": self.sel("prop"), "seed": seed}),
             (0.06, {"o": "set_value_at", "p": self.sel("prop"), "i": r.randrange(0, 4), "seed": seed}),
             (0.05, {"o": "set_dtype", "p": self.sel("prop")}),
-            (0.04, {"o": "new_list", "family": r.choice(["str", "int", "tup"]), "seed": seed,
+            (0.04, {"o": "new_list", "family": r.choice(LIST_FAMILIES), "seed": seed,
                     "n": r.choice([0, 1, 2, 3])}),
+            # prop[i][j] = s: the bracket access hands out the stored tuple item itself
+            (0.10, {"o": "value_inner_set", "p": self.sel("tupprop"), "i": r.randrange(0, 12),
+                    "j": r.randrange(0, 12), "s": r.choice(TOKENS), "wrap": r.random() < 0.8}),
             (0.07, {"o": "list_append", "l": r.randrange(1000), "seed": seed}),
             (0.06, {"o": "list_set", "l": r.randrange(1000), "i": r.randrange(0, 4), "seed": seed}),
             (0.05, {"o": "list_del", "l": r.randrange(1000), "i": r.randrange(0, 4)}),
             (0.09, {"o": "list_inner_set", "l": r.randrange(1000), "i": r.randrange(0, 3),
                     "j": r.randrange(0, 3), "s": r.choice(TOKENS)}),
             (0.05, {"o": "new_obj", "kind": r.choice(["sec", "prop"]), "name": r.choice(NAMES),
-                    "family": r.choice(["str", "int", "tup"]), "seed": seed, "n": r.choice([0, 1, 2])}),
+                    "family": r.choice(LIST_FAMILIES), "seed": seed, "n": r.choice([0, 1, 2])}),
             (0.06, {"o": "append", "p": self.sel("cont"), "x": self.sel("secprop")}),
             (0.05, {"o": "remove", "p": self.sel("cont"), "x": self.sel("child"), "k": r.randrange(1000)}),
             (0.06, {"o": "rename", "x": self.sel("secprop"), "new": r.choice(NAMES)}),
@@ -308,7 +428,7 @@ class Gen(object):
                     "val": r.choice(TOKENS + ["card1", "card2", "none"])}),
             (0.02, {"o": "new_id", "x": self.sel("any")}),
             (0.03, {"o": "clone", "x": self.sel("any"), "children": r.random() < 0.7,
-                    "keep": r.random() < 0.4}),
+                    "keep": r.random() < 0.4, "style": r.choice(["kw", "pos"])}),
             (0.02, {"o": "export", "x": self.sel("secprop")}),
         ]
         tot = sum(w for w, _ in table)
@@ -319,8 +439,37 @@ class Gen(object):
                 return op
         return table[0][1]
 
-    def ops(self, n, free):
-        return [self.edit(free) for _ in range(n)]
+    def free_op(self, o):
+        while True:
+            op = self.edit(True)
+            if op["o"] in FREE_OPS:
+                op["o"] = o
+                return op
+
+    def hold_then_edit(self, case):
+        """A tuple item obtained from the original (item = prop[i]) before the copy is made and
+        written to afterwards."""
+        case.setdefault("pre", []).append(self.free_op("hold_item"))
+        for _ in range(self.r.choice([1, 2])):
+            op = self.free_op("held_set")
+            if case["side"] == "mixed":
+                op["sd"] = "orig"
+            case["ops"].insert(self.r.randrange(0, len(case["ops"]) + 1), op)
+
+    def ops(self, n, free, mixed=False, handler=False):
+        out = [self.edit(free) for _ in range(n)]
+        if mixed:
+            # a history that goes back and forth between the copy and the original
+            for op in out:
+                op["sd"] = self.r.choice(["copy", "orig"])
+        if handler:
+            # the same TemplateHandler is asked again after the edits
+            for _ in range(self.r.choice([1, 1, 2])):
+                out.insert(self.r.randrange(0, len(out) + 1),
+                           {"o": "clone", "via_handler": True, "x": self.sel("sec"),
+                            "children": self.r.random() < 0.7, "keep": self.r.random() < 0.5,
+                            "style": self.r.choice(["kw", "pos"])})
+        return out
 
 
 # ----------------------------------------------------------------------------- execution
@@ -333,20 +482,31 @@ class Exec(object):
         self.steps = []
         self.laws = []
         self.rng_cls = random.Random
+        self.cur_side = None     # the side the running operation belongs to (recorded in the op)
+        self.handles = []        # (tuple item obtained by prop[i] and kept by the caller, side)
+        self.handler = None      # TemplateHandler of the template stream, used again later on
+        self.url = None
+        self.loaded = None
 
     def pick(self, sel, side):
         w = self.w
         what = sel["sel"]
         kinds = {"sec": ("sec",), "prop": ("prop",), "cont": ("doc", "sec", "sec"), "any": ("doc", "sec", "prop"),
-                 "secprop": ("sec", "prop"), "child": ("sec", "prop")}[what]
+                 "secprop": ("sec", "prop"), "child": ("sec", "prop"), "tupprop": ("prop",),
+                 "doc": ("doc",)}[what]
         cands = [i for i, o in enumerate(w.objs) if w.side_obj.get(i) == side and w.idx(o) == i
                  and kind_of(o) in kinds]
+        if what == "tupprop":
+            # Properties holding at least one tuple value, if there are any
+            tups = [i for i in cands if (w.objs[i].dtype or "").endswith("-tuple") and len(w.objs[i]) > 0]
+            cands = tups or cands
         if not cands:
             return None
         return cands[sel["n"] % len(cands)]
 
-    def pick_list(self, n, side):
-        cands = [i for i in range(len(self.w.lists)) if self.w.side_list.get(i) == side]
+    def pick_list(self, n, side, fam=None):
+        cands = [i for i in range(len(self.w.lists)) if self.w.side_list.get(i) == side
+                 and (fam is None or self.w.list_family[i] == fam)]
         if not cands:
             return None
         return cands[n % len(cands)]
@@ -360,6 +520,8 @@ class Exec(object):
     def do(self, rop, fn, reg=None):
         """Runs one resolved op on the implementation, registers what it returns."""
         n_objs, n_lists = len(self.w.objs), len(self.w.lists)
+        if self.cur_side is not None:
+            rop["side"] = self.cur_side
         try:
             ret = fn()
             out = {"ok": None}
@@ -373,15 +535,20 @@ class Exec(object):
         return ret
 
     # -- the copy-producing operations ---------------------------------------
-    def op_clone(self, x, children, keep, side, via=None):
+    def op_clone(self, x, children, keep, side, via=None, style="kw"):
         w = self.w
         obj = w.objs[x]
         kind = kind_of(obj)
         rop = {"o": "clone", "x": x, "children": True if kind == "prop" else children, "keep": keep}
+        self.cur_side = side
 
         def fn():
             if via is not None:
                 return via()
+            if style == "pos":                  # the flags by position
+                if kind == "prop":
+                    return obj.clone(keep)
+                return obj.clone(children, keep)
             if kind == "prop":
                 return obj.clone(keep_id=keep)
             return obj.clone(children=children, keep_id=keep)
@@ -400,6 +567,7 @@ class Exec(object):
         w = self.w
         obj = w.objs[x]
         rop = {"o": "export", "x": x}
+        self.cur_side = side
         chain = []
         cur = obj if kind_of(obj) != "prop" else obj.parent
         guard = 0
@@ -419,11 +587,39 @@ class Exec(object):
         w = self.w
         o = op["o"]
         r = self.rng_cls(op.get("seed", 0))
+        self.cur_side = side
+        if o == "clone" and op.get("via_handler"):
+            # TemplateHandler.clone_section once more on the handler of the first operation: a
+            # copy of a Section of the cached document as it is now
+            if self.handler is None:
+                return
+            tops = [i for i, ob in enumerate(w.objs) if kind_of(ob) == "sec" and ob.parent is self.loaded
+                    and w.idx(ob) == i]
+            if not tops:
+                return
+            x = tops[op["x"]["n"] % len(tops)]
+            name, handler, url = w.objs[x].name, self.handler, self.url
+            if op.get("style") == "pos":
+                return self.op_clone(x, op["children"], op["keep"], "copy",
+                                     via=lambda: handler.clone_section(url, name, op["children"], op["keep"]))
+            return self.op_clone(x, op["children"], op["keep"], "copy",
+                                 via=lambda: handler.clone_section(url, name, children=op["children"],
+                                                                   keep_id=op["keep"]))
         if o == "clone":
             x = self.pick(op["x"], side)
             if x is None:
                 return
-            return self.op_clone(x, op["children"], op["keep"], side)
+            return self.op_clone(x, op["children"], op["keep"], side, style=op.get("style", "kw"))
+        if o == "value_inner_set":
+            p = self.pick(op["p"], side)
+            if p is None:
+                return
+            prop = w.objs[p]
+            i, j = self.wrap_ij(prop, op)
+
+            def fn():
+                prop[i][j] = op["s"]
+            return self.do({"o": o, "p": p, "i": i, "j": j, "s": op["s"]}, fn)
         if o == "export":
             x = self.pick(op["x"], side)
             if x is None:
@@ -441,7 +637,7 @@ class Exec(object):
                 return self.do({"o": o, "p": p}, lambda: prop.values,
                                lambda ret: {"ret": w.register_list(ret, side, fam)})
             if o == "set_values_from":
-                l = self.pick_list(op["l"], side)
+                l = self.pick_list(op["l"], side, fam)
                 if l is None or w.list_family[l] != fam:
                     return
                 lst = w.lists[l]
@@ -597,6 +793,18 @@ class Exec(object):
             return self.free_edit(op, side, r)
         raise ValueError(o)
 
+    @staticmethod
+    def wrap_ij(prop, op):
+        """Indices of a tuple item: mostly brought into range (the value is only read here)."""
+        i, j = op["i"], op["j"]
+        if op.get("wrap"):
+            try:
+                i = i % len(prop)
+                j = j % len(prop[i])
+            except Exception:
+                pass
+        return i, j
+
     def free_edit(self, op, side, r):
         """Operations outside the model (oracle only)."""
         import odml
@@ -606,6 +814,8 @@ class Exec(object):
         x = self.pick(op["x"], side)
         q = self.pick(op["q"], side)
         rop = {"o": o, "free": True}
+        if o in ("sec_merge", "merge_across", "set_link", "finalize") and len(w.objs) > 300:
+            return                              # these copy whole subtrees: keep the case small
         if o in ("insert", "extend", "create_section", "create_property", "clean", "sec_merge") and p is None:
             return
         if o == "insert" and x is not None:
@@ -667,6 +877,162 @@ class Exec(object):
             def fn():
                 w.objs[x].parent = None if p is None or op["pos"] < -1 else w.objs[p]
             return self.do(rop, fn)
+        # ---- round 2 -----------------------------------------------------------------------
+        other_side = "orig" if side == "copy" else "copy"
+        t = self.pick(op["t"], side) if "t" in op else None
+        if o == "inner_edit" and t is not None:
+            # every spelling of the direct access to a stored tuple item; all of them keep the
+            # length of the item (a 2-tuple with three items is not a value the library accepts)
+            prop = w.objs[t]
+            i, j = self.wrap_ij(prop, op)
+            sv = op["s"]
+            how = op["seed"] % 7
+            rop["how"] = how
+
+            def fn():
+                if how == 0:
+                    prop[-1][-1] = sv                       # negative indices
+                elif how == 1:
+                    part = prop[0:2]                        # a slice: a new list of the same items
+                    part[i % len(part)][-(1 + j % len(part[i % len(part)]))] = sv
+                elif how == 2:
+                    for item in prop:                       # iteration goes through __getitem__
+                        if isinstance(item, list):
+                            item[j % len(item)] = sv
+                elif how == 3:
+                    prop[i].reverse()
+                elif how == 4:
+                    item = prop[i]
+                    item[:] = [sv] + item[1:]               # slice assignment inside the item
+                elif how == 5:
+                    prop[i].sort()
+                else:
+                    item = prop[i]
+                    item[0], item[j] = item[j], item[0]
+            return self.do(rop, fn)
+        if o == "hold_item" and t is not None:
+            prop = w.objs[t]
+
+            i, _j = self.wrap_ij(prop, op)
+
+            def fn():
+                item = prop[i if op["pos"] >= 0 else -1]
+                if not isinstance(item, list):
+                    raise TypeError("not a tuple item")
+                self.handles.append((item, side))
+            return self.do(rop, fn)
+        if o == "held_set":
+            mine = [h for h, sd in self.handles if sd == side]
+            if not mine:
+                return
+            item = mine[op["l"] % len(mine)]
+            j = op["j"] % len(item) if op.get("wrap") and len(item) else op["j"]
+
+            def fn():
+                item[j] = op["s"]
+            return self.do(rop, fn)
+        if o == "merge_across" and "y" in op:
+            # Section.merge copies what the destination does not have (clone) and extends
+            # Properties it has (values): the source is on the other side and must stay as it is,
+            # now and under every later edit of the destination - and the other way round
+            dst = self.pick(op["y"], side)
+            src = self.pick({"sel": "sec", "n": op["l"]}, other_side)
+            if dst is None or src is None:
+                return
+
+            def fn():
+                w.objs[dst].merge(w.objs[src], strict=op["pos"] > 1)
+            ret = self.do(rop, fn)
+            self.reregister(side)
+            return ret
+        if o == "set_link" and "y" in op:
+            x1 = self.pick(op["y"], side)
+            tgt = self.pick({"sel": "sec", "n": op["l"]}, side)
+            if x1 is None or tgt is None:
+                return
+            if related(w.objs[x1], w.objs[tgt]):
+                return                          # a Section that includes a copy of what it lies in
+
+            def fn():
+                w.objs[x1].link = None if op["pos"] < -1 else w.objs[tgt].get_path()
+            ret = self.do(rop, fn)
+            self.reregister(side)
+            return ret
+        if o == "finalize":
+            d = self.pick({"sel": "doc", "n": 0}, side)
+            if d is None:
+                return
+            # Document.finalize resolves links while it walks the tree, incl. those of the copies it
+            # has just merged in: a link whose target contains the linking Section never comes to
+            # an end (RecursionError after a long time). Only documents with at most one link, and
+            # that one between unrelated Sections, are finalized here.
+            linked = linked_sections(w.objs[d])
+            if len(linked) > 1:
+                return
+            for sec in linked:
+                try:
+                    target = sec.get_section_by_path(sec.link)
+                except Exception:
+                    continue
+                if target is None or related(sec, target):
+                    return
+            ret = self.do(rop, lambda: w.objs[d].finalize())
+            self.reregister(side)
+            return ret
+        if o == "value_alias" and q is not None:
+            # `value`, the deprecated spelling of `values` (getter and setter), as long as it exists
+            prop = w.objs[q]
+            fam = family_of(prop.dtype)
+            if fam is None:
+                return
+            if op["pos"] >= 0:
+                return self.do({"o": "get_values", "p": q, "free": True, "alias": True}, lambda: prop.value,
+                               lambda ret: {"ret": w.register_list(ret, side, fam)})
+            l = self.pick_list(op["l"], side, fam)
+            if l is None:
+                return
+            lst = w.lists[l]
+
+            def fn():
+                prop.value = lst
+            return self.do(rop, fn)
+        if o in ("ctor_from_list", "extend_from_list", "set_values_wrapped"):
+            # the other ways a list of values is passed in: the constructor, create_property,
+            # extend, and the setter with a tuple / an iterator over the caller's items
+            if o == "ctor_from_list":
+                l = self.pick_list(op["l"], side)
+                if l is None:
+                    return
+                lst, fam = w.lists[l], w.list_family[l]
+                if p is not None and kind_of(w.objs[p]) == "sec" and op["pos"] >= 0:
+                    ret = self.do(rop, lambda: w.objs[p].create_property(op["name"], values=lst,
+                                                                         dtype=FAMILY_DTYPE[fam]))
+                    self.reregister(side)
+                    return ret
+                if op["pos"] == -2:             # the deprecated constructor argument `value`
+                    return self.do(rop, lambda: odml.Property(name=op["name"], value=lst, dtype=FAMILY_DTYPE[fam]),
+                                   lambda ret: w.register_tree(ret, side))
+                return self.do(rop, lambda: odml.Property(name=op["name"], values=lst, dtype=FAMILY_DTYPE[fam]),
+                               lambda ret: w.register_tree(ret, side))
+            if q is None:
+                return
+            prop = w.objs[q]
+            fam = family_of(prop.dtype)
+            l = self.pick_list(op["l"], side, fam)
+            if l is None:
+                return
+            lst = w.lists[l]
+            if o == "extend_from_list":
+                return self.do(rop, lambda: prop.extend(lst))
+
+            def fn():
+                if op["pos"] >= 1:
+                    prop.values = tuple(lst)
+                elif op["pos"] >= -1:
+                    prop.values = iter(lst)
+                else:
+                    prop.values = (v for v in lst)
+            return self.do(rop, fn)
         return
 
     def reregister(self, side):
@@ -687,58 +1053,115 @@ class Exec(object):
             self.steps[-1]["snap"] = w.snap()
 
     # -- a whole case ------------------------------------------------------------
+    def write_xml(self, doc, fname):
+        from odml.tools.odmlparser import ODMLWriter
+        tmp = tempfile.mkdtemp(prefix="c11_")
+        tempfile.tempdir = tmp                    # the library's cache directory goes there too
+        path = os.path.join(tmp, fname)
+        ODMLWriter("XML").write_file(doc, path)
+        return tmp, "file://" + path
+
     def run(self):
         case = self.case
         w = self.w
         tmp = None
         old_tmp = tempfile.tempdir
+        term_url = None
         try:
             doc = build_doc(case["doc"])
             first = case["first"]
+            pre = case.get("pre", [])
             if first["o"] == "template":
                 try:
-                    from odml.tools.odmlparser import ODMLWriter
                     import odml.templates as templates
-                    tmp = tempfile.mkdtemp(prefix="c11_")
-                    tempfile.tempdir = tmp
-                    path = os.path.join(tmp, "template.xml")
-                    ODMLWriter("XML").write_file(doc, path)
-                    url = "file://" + path
+                    tmp, url = self.write_xml(doc, "template.xml")
                     handler = templates.TemplateHandler()
                     loaded = handler.load(url)
                     if loaded is None or len(loaded.sections) == 0:
                         return {"skipped": "template could not be loaded"}
                 except Exception as exc:
                     return {"skipped": "template preparation failed: %s" % fw.exc_name(exc)}
+                self.handler, self.url, self.loaded = handler, url, loaded
                 w.register_tree(loaded, "orig")
-                tops = [i for i, o in enumerate(w.objs) if kind_of(o) == "sec" and o.parent is loaded]
-                x = tops[first["root"] % len(tops)]
-                name = w.objs[x].name
                 init = w.init_table()
                 self.record(None, None)
-                self.op_clone(x, first["children"], first["keep"], "copy",
-                              via=lambda: handler.clone_section(url, name, children=first["children"],
-                                                                keep_id=first["keep"]))
+                for op in pre:                     # the cached document has a history of its own
+                    self.edit(op, "orig")
+                tops = [i for i, o in enumerate(w.objs) if kind_of(o) == "sec" and o.parent is loaded
+                        and w.idx(o) == i]
+                if tops:
+                    x = tops[first["root"] % len(tops)]
+                    name = w.objs[x].name
+                    if first.get("style") == "pos":
+                        via = lambda: handler.clone_section(url, name, first["children"], first["keep"])
+                    else:
+                        via = lambda: handler.clone_section(url, name, children=first["children"],
+                                                            keep_id=first["keep"])
+                    self.op_clone(x, first["children"], first["keep"], "copy", via=via)
+            elif first["o"] == "include":
+                # Section.include: the Sections of a terminology file, cached by the library for the
+                # whole process, are merged (copied) into a Section of another document
+                try:
+                    import odml
+                    import odml.terminology as terminology
+                    tmp, url = self.write_xml(doc, "terms.xml")
+                    loaded = terminology.load(url)
+                    term_url = url
+                    if loaded is None or len(loaded.sections) == 0:
+                        return {"skipped": "terminology could not be loaded"}
+                except Exception as exc:
+                    return {"skipped": "terminology preparation failed: %s" % fw.exc_name(exc)}
+                w.register_tree(loaded, "orig")
+                init = w.init_table()
+                self.record(None, None)
+                for op in pre:
+                    self.edit(op, "orig")
+                self.cur_side = "copy"
+                ndoc = self.do({"o": "new_doc", "free": True}, lambda: odml.Document(author="inc"),
+                               lambda ret: w.register_tree(ret, "copy"))
+                nsec = self.do({"o": "new_sec", "free": True},
+                               lambda: odml.Section(name="inc", type="t", parent=ndoc),
+                               lambda ret: w.register_tree(ret, "copy"))
+                tops = [o for o in loaded.sections]
+                if nsec is not None and tops:
+                    target = url
+                    if first["root"] % 3 != 0:
+                        target = url + "#" + tops[first["root"] % len(tops)].get_path()
+
+                    def fn():
+                        nsec.include = target
+                    self.do({"o": "include", "free": True}, fn)
+                    self.reregister("copy")
             else:
                 w.register_tree(doc, "orig")
                 init = w.init_table()
                 self.record(None, None)
+                for op in pre:                     # what happened to the original before the copy
+                    self.edit(op, "orig")
                 if first["o"] == "clone":
                     x = first["root"] % len(w.objs)
-                    self.op_clone(x, first["children"], first["keep"], "copy")
+                    self.op_clone(x, first["children"], first["keep"], "copy", style=first.get("style", "kw"))
                 elif first["o"] == "export":
                     cands = [i for i, o in enumerate(w.objs) if kind_of(o) != "doc"]
                     self.op_export(cands[first["root"] % len(cands)], "copy")
                 elif first["o"] == "detached_export":
                     # a Property / Section outside any document
-                    self.edit({"o": "new_obj", "kind": first["kind"], "name": "k", "family": "tup",
+                    self.edit({"o": "new_obj", "kind": first["kind"], "name": "k",
+                               "family": first.get("family", "tup"),
                                "seed": first["root"], "n": 2}, "orig")
                     self.op_export(len(w.objs) - 1, "copy")
             for op in case["ops"]:
-                self.edit(op, self.side)
+                side = op.get("sd") or self.side
+                self.edit(op, side if side in ("copy", "orig") else "copy")
             return {"init": init, "steps": self.steps}
         finally:
             tempfile.tempdir = old_tmp
+            if term_url is not None:
+                try:
+                    import odml.terminology as terminology
+                    terminology.terminologies.pop(term_url, None)
+                except Exception:
+                    pass
             if tmp is not None:
                 shutil.rmtree(tmp, ignore_errors=True)
 
@@ -814,7 +1237,25 @@ class C11(fw.Check):
         "store_edits_preserve_values_got",
         "values_get_shallow_counterexample",
         "values_set_copies",
-        "edits_of_passed_list_preserve_property"]]
+        "edits_of_passed_list_preserve_property",
+        "step_scoped",
+        "run_scoped",
+        "step_wf",
+        "run_wf",
+        "reachable_wf",
+        "edit_original_preserves_copy_reachable",
+        "edit_original_preserves_export_reachable",
+        "store_edits_preserve_values_got_reachable",
+        "clone_tree_equal",
+        "clone_ids_kept",
+        "clone_ids_fresh_tree",
+        "clone_tree_equal_reachable",
+        "edit_original_preserves_copy_tree",
+        "edit_copy_preserves_original_tree",
+        "export_leaf_chain",
+        "export_leaf_detached_property",
+        "export_leaf_chain_reachable",
+        "clone_tree_equal_illtyped_counterexample"]]
     case_timeout = 30
     trusted_base = [
         "Lean 4.33.0 kernel; axioms propext, Classical.choice, Quot.sound only (audited per theorem)",
@@ -830,49 +1271,83 @@ class C11(fw.Check):
         "the store is a forest when clone is called (C03); on a cyclic store the model reports that "
         "the recursion does not end",
     ]
-    rule = ("random documents (<= 15 objects, depth <= 4, string / int / 2-tuple Properties, optional "
-            "resolved link) x every object as clone root x children x keep_id, every Section / Property "
-            "as export_leaf root, TemplateHandler.clone_section on a file: URL, detached objects; "
-            "followed by random edit sequences on the copy or on the original; every parentless object "
-            "and every caller-held list is snapshotted after every operation. Non-trivial = the case "
-            "has at least one edit that was carried out; distinct = distinct canonical JSON of the case.")
+    rule = ("random documents (<= 15 objects, depth <= 4; every tenth one wide: a Section with 10-12 "
+            "Properties / sub-Sections, every tenth one a chain of 7 levels; Properties of every dtype "
+            "incl. 1-/2-/3-/10-tuples, dates before the year 1000, 0-12 values, all attributes, "
+            "cardinalities met and not met, optional resolved or unresolved link) x every object as "
+            "clone root x children x keep_id (flags by keyword or by position), every Section / "
+            "Property as export_leaf root, TemplateHandler.clone_section on a file: URL (and again on "
+            "the same handler later), Section.include of a cached terminology file, detached objects; "
+            "optionally a history of edits of the original before the copy; followed by random edit "
+            "sequences on the copy, on the original, or alternating between both, incl. writes to "
+            "stored tuple items through the bracket access (prop[i][j] = s and its other spellings, "
+            "items held across the copy), Section.merge from the other side, links, lists passed in "
+            "through every entry point; every parentless object and every caller-held list is "
+            "snapshotted after every operation. Non-trivial = the case has at least one edit that "
+            "was carried out; distinct = distinct canonical JSON of the case.")
 
     # -- generation ----------------------------------------------------------
     def generate(self, tier, rng):
         g = Gen(rng)
         cases = []
-        n_docs = 130 if tier == "quick" else 900
+        n_docs = 160 if tier == "quick" else 900
         for di in range(n_docs):
-            doc = g.doc(linked=(di % 5 == 4))
+            shape = {7: "wide", 3: "deep"}.get(di % 10)
+            doc = g.doc(linked=(di % 5 == 4), shape=shape)
             n_nodes = 1 + self.count(doc)
             roots = list(range(n_nodes)) if tier == "thorough" or n_nodes <= 6 else \
                 sorted(rng.sample(range(n_nodes), 6))
             for root in roots:
                 for children in (True, False):
                     keep = rng.random() < 0.5
-                    side = rng.choice(["copy", "copy", "orig"])
-                    free = rng.random() < 0.25
-                    cases.append({"stream": "free" if free else "clone", "doc": doc, "side": side,
-                                  "first": {"o": "clone", "root": root, "children": children, "keep": keep},
-                                  "ops": g.ops(rng.randrange(2, 14), free)})
+                    side = rng.choice(["copy", "copy", "orig", "mixed"])
+                    free = rng.random() < 0.3
+                    case = {"stream": "free" if free else "clone", "doc": doc, "side": side,
+                            "first": {"o": "clone", "root": root, "children": children, "keep": keep,
+                                      "style": rng.choice(["kw", "kw", "pos"])},
+                            "ops": g.ops(rng.randrange(2, 14), free, mixed=(side == "mixed"))}
+                    if rng.random() < 0.3:
+                        # the original has a history before the copy is made
+                        case["pre"] = g.ops(rng.randrange(1, 6), free)
+                    if free and side in ("orig", "mixed") and rng.random() < 0.5:
+                        g.hold_then_edit(case)
+                    cases.append(case)
                 if rng.random() < 0.7:
-                    side = rng.choice(["copy", "orig"])
-                    free = rng.random() < 0.2
-                    cases.append({"stream": "free" if free else "export", "doc": doc, "side": side,
-                                  "first": {"o": "export", "root": root},
-                                  "ops": g.ops(rng.randrange(2, 12), free)})
+                    side = rng.choice(["copy", "orig", "mixed"])
+                    free = rng.random() < 0.25
+                    case = {"stream": "free" if free else "export", "doc": doc, "side": side,
+                            "first": {"o": "export", "root": root},
+                            "ops": g.ops(rng.randrange(2, 12), free, mixed=(side == "mixed"))}
+                    if rng.random() < 0.3:
+                        case["pre"] = g.ops(rng.randrange(1, 6), free)
+                    if free and side in ("orig", "mixed") and rng.random() < 0.5:
+                        g.hold_then_edit(case)
+                    cases.append(case)
             cases.append({"stream": "values", "doc": doc, "side": "orig", "first": {"o": "none"},
                           "ops": g.ops(rng.randrange(4, 16), False)})
             if di % 4 == 0:
-                cases.append({"stream": "template", "doc": doc, "side": rng.choice(["copy", "orig"]),
-                              "first": {"o": "template", "root": rng.randrange(100),
-                                        "children": rng.random() < 0.7, "keep": rng.random() < 0.5},
-                              "ops": g.ops(rng.randrange(2, 10), False)})
+                free = rng.random() < 0.25
+                side = rng.choice(["copy", "orig", "mixed"])
+                case = {"stream": "free" if free else "template", "doc": doc, "side": side,
+                        "first": {"o": "template", "root": rng.randrange(100),
+                                  "children": rng.random() < 0.7, "keep": rng.random() < 0.5,
+                                  "style": rng.choice(["kw", "pos"])},
+                        "ops": g.ops(rng.randrange(2, 10), free, mixed=(side == "mixed"), handler=True)}
+                if rng.random() < 0.3:
+                    case["pre"] = g.ops(rng.randrange(1, 5), free)
+                cases.append(case)
             if di % 6 == 0:
                 cases.append({"stream": "export", "doc": doc, "side": rng.choice(["copy", "orig"]),
                               "first": {"o": "detached_export", "kind": rng.choice(["prop", "sec"]),
+                                        "family": rng.choice(["tup", "tup", "tup3", "str", "date"]),
                                         "root": rng.randrange(1000)},
                               "ops": g.ops(rng.randrange(2, 8), False)})
+            if di % 5 == 1:
+                # Section.include (oracle only): the terminology cache of the process is the original
+                side = rng.choice(["copy", "orig", "mixed"])
+                cases.append({"stream": "free", "doc": doc, "side": side,
+                              "first": {"o": "include", "root": rng.randrange(100)},
+                              "ops": g.ops(rng.randrange(3, 10), True, mixed=(side == "mixed"))})
         return cases
 
     @staticmethod
@@ -953,6 +1428,10 @@ class C11(fw.Check):
             op_side = edit_side if first_copy_done or case["first"]["o"] in ("none",) else "copy"
             if not first_copy_done and case["first"]["o"] == "detached_export" and o == "new_obj":
                 op_side = "orig"
+            if op.get("side") in ("copy", "orig"):
+                # the side the operation was applied to (histories before the copy, histories that
+                # alternate between copy and original)
+                op_side = op["side"]
             for key in csnap["roots"]:
                 for n in walk_nodes(csnap["roots"][key]):
                     if n["h"] is not None and n["h"] >= 0:
